@@ -2328,8 +2328,10 @@ public:
     SBEPP_CPP20_CONSTEXPR std::size_t operator()(size_bytes_tag) const noexcept
     {
         auto dimension = (*this)(get_header_tag{});
+        // multiply in `std::size_t`: the promoted header types can overflow
+        // (e.g. `uint16 * uint16` is a signed `int` multiplication)
         return sbepp::size_bytes(dimension)
-               + dimension.numInGroup().value()
+               + static_cast<std::size_t>(dimension.numInGroup().value())
                      * dimension.blockLength().value();
     }
 
